@@ -124,12 +124,25 @@ theorem printed_is_nearest_decimal (k N D : Nat) (hD : 0 < D) :
     (N : Rat) / D ≤ ((F64.digits k (.fin N D) : Nat) : Rat) / 10 ^ k + 1 / (2 * 10 ^ k) :=
   F64.fmt_close k N D hD
 
-/-- **each printed mean equals its exact definition up to rounding.**  For accumulators below 2^53 (9·10^15; conversions
-    are then exact) and non-empty denominators, the number printed for each floating-point figure — `shown k v`, the digits
-    of `fmt k v` read as a decimal — satisfies `|shown − E| ≤ 1/(2·10^k) + K·E/2^53` where `E` is the exact rational the
-    property defines (`a/b`, `sum/len/c`, `x·10^-8`, `count/outs·100`, `vol/outs·10^-8`) and `K ≤ 4` counts the correctly
-    rounded operations in the code's expression (+1 for the inexact literal `1E-8`) -/
+/-- **each printed mean equals its exact definition up to rounding — for every `u64` accumulator.**  For all naturals (any
+    magnitude; the code's values are `u64`) and non-zero denominators, the number printed for each floating-point figure —
+    `shown k v`, the digits of `fmt k v` read as a decimal — satisfies `|shown − E| ≤ 1/(2·10^k) + K·E/2^53`, where `E` is the
+    exact rational the property defines (`a/b`, `sum/len/c`, `x·10^-8`, `count/outs·100`, `vol/outs·10^-8`) and `K ≤ 10` bounds
+    the accumulated effect of the correctly rounded operations in the code's expression (two conversions, the division(s) /
+    multiplication(s), the inexact literal `1E-8`).  With accumulators below 2^53 the conversions are exact and `K ≤ 4`
+    (`printed_figures_close_small`) -/
 theorem printed_figures_close :
+    (∀ a b : Nat, 0 < b → ∃ v, v.Fin ∧ F64.ratio a b = F64.fmt 2 v ∧ F64.Shows 2 6 v ((a : Rat) / b)) ∧
+    (∀ sum len c : Nat, 0 < len → 0 < c → c < 2 ^ 53 →
+      ∃ v, v.Fin ∧ F64.meanOver sum len c = F64.fmt 2 v ∧ F64.Shows 2 8 v ((sum : Rat) / len / c)) ∧
+    (∀ x : Nat, ∃ v, v.Fin ∧ F64.coins x = F64.fmt 8 v ∧ F64.Shows 8 5 v ((x : Rat) * (1 / 10 ^ 8))) ∧
+    (∀ count outs : Nat, 0 < outs →
+      ∃ v, v.Fin ∧ F64.share count outs = F64.fmt 2 v ∧ F64.Shows 2 8 v ((count : Rat) / outs * 100)) ∧
+    (∀ vol outs : Nat, 0 < outs →
+      ∃ v, v.Fin ∧ F64.valuePerOutput vol outs = F64.fmt 2 v ∧ F64.Shows 2 10 v ((vol : Rat) / outs * (1 / 10 ^ 8))) :=
+  ⟨F64.ratio_shows_any, F64.meanOver_shows_any, F64.coins_shows_any, F64.share_shows_any, F64.valuePerOutput_shows_any⟩
+
+theorem printed_figures_close_small :
     (∀ a b : Nat, a < 2 ^ 53 → 0 < b → b < 2 ^ 53 →
       ∃ v, v.Fin ∧ F64.ratio a b = F64.fmt 2 v ∧ F64.Shows 2 1 v ((a : Rat) / b)) ∧
     (∀ sum len c : Nat, sum < 2 ^ 53 → 0 < len → len < 2 ^ 53 → 0 < c → c < 2 ^ 53 →
